@@ -1,4 +1,4 @@
-import Qfproto.SorterHeap
+import QF.Core.SorterHeap
 /-! Prototype: doPivot of the mirror establishes the partition quickSort needs. -/
 namespace Sorter
 
